@@ -86,14 +86,18 @@ static int read_from_tree(BitStreamReader *reader, TreeElement *tree)
 static unsigned steps, g_d, g_is_copy, g_pos0;
 static void havoc_window(LHANewDecoder *decoder)
 {
-#if defined(__CPROVER__)
+#if !defined(__CPROVER__)
+	(void) decoder;
+#elif RING_BUFFER_SIZE <= 64
+	u8 fresh[RING_BUFFER_SIZE];           /* uninitialised = arbitrary */
+	unsigned k;
+	for (k = 0; k < RING_BUFFER_SIZE; ++k) decoder->ringbuf[k] = fresh[k];
+#else
 	LHANewDecoder fresh;                  /* uninitialised = arbitrary */
 	fresh.bit_stream_reader = decoder->bit_stream_reader;
 	fresh.ringbuf_pos = decoder->ringbuf_pos;
 	fresh.block_remaining = decoder->block_remaining;
 	*decoder = fresh;                     /* window contents (and the unused trees) re-chosen arbitrarily */
-#else
-	(void) decoder;
 #endif
 }
 static void output_byte(LHANewDecoder *decoder, uint8_t *buf, size_t *buf_len, uint8_t b)
@@ -134,17 +138,6 @@ void harness_outbyte(void)
 	CHECK(dec.ringbuf_pos == (pos0 + 1) % RING, "C01 H01.cmd: head advances by one mod RING");
 	if (pos0 == RING - 1) WITNESS("head wraps");
 	WITNESS("end");
-}
-#endif
-
-#ifdef STUB_OFFSET
-/* distance decoding is verified separately (harness_offcode); here the distance is an arbitrary value < RING */
-static unsigned offcode_calls;
-static int read_offset_code(LHANewDecoder *decoder)
-{
-	(void) decoder;
-	++offcode_calls;
-	return (int) g_d;
 }
 #endif
 
